@@ -22,9 +22,47 @@ KEYS = ["C12w", "C12q"]
 KEYS2 = ["C12w", "C12h", "C12q"]   # checkers of the second-generation model (output queue, blocking transport)
 
 
+def nested_reconnect_oracle(out):
+    """F-C12c (repaired by 9ae07fc, a regression of the first version of e5489c0): the write of publish()'s own PUBLISH
+    fails hard, the connection is torn down inside publish(), and on_disconnect calls reconnect() - which rewinds the
+    message stores and counts the window afresh - before publish() looks at the result.  Nested API calls are outside
+    the session models, so this history is run on the implementation only and judged directly: after the next
+    CONNACK no more than max_inflight PUBLISH packets may be unacknowledged on the wire, and the counter must equal
+    the number of messages in a wait state."""
+    import paho.mqtt.client as mqtt
+    from vlib import impl
+    for qos in (1, 2):
+        for window in (1, 2, 3):
+            for extra in (0, 1, 2):
+                c = impl.make_client(clean=False)
+                c.max_inflight_messages_set(window)
+                c.on_disconnect = lambda cl, *a: cl.reconnect()
+                c.connect("h")
+                c.socks[-1].feed(impl.connack()); c.loop_read()
+                for _ in range(extra):
+                    c.publish("t", b"x", qos)
+                c.socks[-1].send_plan.append(-1)          # the next write raises BrokenPipeError
+                c.publish("t", b"y", qos)                 # on_disconnect -> reconnect() runs inside this call
+                for _ in range(window + 1):
+                    c.publish("t", b"z", qos)
+                c.socks[-1].feed(impl.connack()); c.loop_read(); c.loop_write()
+                pk, _ = impl.split_packets(bytes(c.socks[-1].wire))
+                pubs = [1 for first, body in pk if first >> 4 == 3]
+                waiting = sum(1 for m in c._out_messages.values()
+                              if m.state in (mqtt.mqtt_ms_wait_for_puback, mqtt.mqtt_ms_wait_for_pubrec, mqtt.mqtt_ms_wait_for_pubcomp))
+                out.cases += 1
+                out.validated += 1
+                out.stat("nested_reconnect_in_on_disconnect")
+                if len(pubs) > window or c._inflight_messages != waiting or c._inflight_messages > window:
+                    out.violations.append({"signature": "C12-nested-reconnect-window", "what": "reconnect() inside the on_disconnect of a publish() whose write failed: "
+                                           f"window {window}, {len(pubs)} PUBLISH unacknowledged on the new connection, counter {c._inflight_messages}, {waiting} messages in a wait state",
+                                           "case": {"qos": qos, "window": window, "extra": extra}})
+
+
 def run(ctx, out):
     session.standard_run(ctx, out, KEYS, "C12", conforming=True)
     session2.standard_run(ctx, out, KEYS2, "C12-s2", conforming=True)
+    nested_reconnect_oracle(out)
 
 
 def replay(payload):
